@@ -4,6 +4,8 @@ import (
 	"fmt"
 	"github.com/glowlabs-org/gca-backend/glow"
 	"math"
+	"os"
+	"path/filepath"
 	"sync"
 
 	"verifharness/hx"
@@ -241,6 +243,25 @@ func runEquip(c *ctx) error {
 		}); err != nil {
 			return err
 		}
+	}
+	// the GCA key file cannot be written (a directory is in its place): a correctly signed registration is refused
+	// and leaves nothing behind; afterwards another key registers normally
+	if err := regSeq("reg/key-file-unwritable", func() {
+		obstacle := filepath.Join(s.Dir, "gcaPubKey.dat")
+		os.Mkdir(obstacle, 0755)
+		s.T.Emit(hx.J{"a": "DiskFault", "on": true})
+		s.Register("gca", "temp", "gca")
+		honoured()
+		os.Remove(obstacle)
+		s.T.Emit(hx.J{"a": "DiskFault", "on": false})
+		s.Register("gca2", "temp", "gca2")
+		honoured()
+		if err := s.Restart(); err != nil {
+			return
+		}
+		honoured()
+	}); err != nil {
+		return err
 	}
 	nb := 4
 	if c.tier == "thorough" {
